@@ -88,6 +88,23 @@ fn run_variant(scn: &Scenario, k: usize, root: &str) -> VariantOut {
         }
     }
     shim::reset_thread_lineage(0x11EA6E ^ if VARIANTS[k] == "entropy" { e.env_seed ^ 0xE47_0002 } else { e.env_seed });
+    // The history runs on a fresh thread created *after* the variant's entropy is in place: std
+    // caches a thread's hash-map keys the first time a RandomState is made, and the forking thread
+    // made one long ago; the new thread's lineage derives from this variant's lineage, so its keys
+    // (and everything else it draws) differ between the `base` and `entropy` environments.
+    let root2 = root.to_string();
+    let scn_env = scn.clone();
+    std::thread::Builder::new()
+        .stack_size(256 << 20)
+        .spawn(move || run_variant_body(&scn_env, s2, k, &root2, out))
+        .ok()
+        .and_then(|h| h.join().ok())
+        .unwrap_or_default()
+}
+
+fn run_variant_body(scn: &Scenario, s2: Scenario, k: usize, root: &str, mut out: VariantOut) -> VariantOut {
+    let e = &scn.env;
+    let _ = e;
     shim::set_sim_thread(true);
     let wroot = if VARIANTS[k] == "path+short-io" { format!("{root}/another-much-longer-directory-name-{k}") } else { format!("{root}/v{k}") };
     std::fs::create_dir_all(&wroot).unwrap();
@@ -95,6 +112,10 @@ fn run_variant(scn: &Scenario, k: usize, root: &str) -> VariantOut {
     w.run(&s2.ops);
     if w.mem.is_some() {
         w.run_op(s2.ops.len(), &Op::Close);
+    }
+    if std::env::var("MEMSIM_HASHDBG").is_ok() {
+        let m: std::collections::HashMap<u64, u8> = (0..8).map(|i| (i, 0)).collect();
+        eprintln!("HASHDBG variant {k} order {:?}", m.keys().collect::<Vec<_>>());
     }
     w.finish_segment();
     out.clock_reads = shim::clock_reads();
@@ -147,18 +168,7 @@ fn fork_variant(scn: &Scenario, k: usize, root: &str) -> Option<VariantOut> {
     let out_path = format!("{root}/v{k}.json");
     let pid = unsafe { libc::fork() };
     if pid == 0 {
-        // Run the variant on a fresh thread: std caches the per-thread hash-map keys the first time a
-        // RandomState is made, and the forking thread made one long ago; on a new thread the keys
-        // are drawn again, from this variant's entropy stream, so that hash seeds really differ
-        // between the `base` and `entropy` environments.
-        let scn2 = scn.clone();
-        let root2 = root.to_string();
-        let r = std::thread::Builder::new()
-            .stack_size(256 << 20)
-            .spawn(move || std::panic::catch_unwind(std::panic::AssertUnwindSafe(|| run_variant(&scn2, k, &root2))))
-            .ok()
-            .and_then(|h| h.join().ok())
-            .unwrap_or_else(|| Err(Box::new("variant thread failed") as Box<dyn std::any::Any + Send>));
+        let r = std::panic::catch_unwind(std::panic::AssertUnwindSafe(|| run_variant(scn, k, root)));
         shim::stop();
         shim::env_stop();
         if let Ok(o) = r {
